@@ -38,9 +38,9 @@ def generate(rng, cfg: Dict) -> Dict:
     ops: List[list] = []
     for _ in range(c.int(1, 10)):
         if kind == "list":
-            k = c.weighted([("assign", 3), ("self_assign", 2), ("iadd", 2.5), ("append", 3), ("extend", 2), ("insert", 2), ("setitem", 2), ("setslice", 1.5), ("gc", 0.4), ("sweep", 0.4), ("retire", 1.0), ("create_elem", 1.0)])
+            k = c.weighted([("assign", 3), ("self_assign", 2), ("iadd", 2.5), ("append", 3), ("extend", 2), ("insert", 2), ("setitem", 2), ("setslice", 1.5), ("gc", 0.4), ("sweep", 0.4), ("retire", 1.0), ("create_elem", 1.0), ("from_other", 1.2)])
         else:
-            k = c.weighted([("assign", 3), ("self_assign", 2), ("ior", 2.5), ("add", 3), ("update", 2), ("gc", 0.4), ("sweep", 0.4), ("retire", 0.8), ("create_elem", 0.8)])
+            k = c.weighted([("assign", 3), ("self_assign", 2), ("ior", 2.5), ("add", 3), ("update", 2), ("gc", 0.4), ("sweep", 0.4), ("retire", 0.8), ("create_elem", 0.8), ("from_other", 1.2)])
         if k in ("assign", "iadd", "extend", "ior", "update"):
             # Python accepts any iterable for extend / update / += and any set-like for |=
             arg = c.weighted([("same", 5), ("tuple", 1), ("generator", 2), ("iterator", 1), ("other", 1)]) if k in ("extend", "update", "iadd") else "same"
@@ -51,6 +51,9 @@ def generate(rng, cfg: Dict) -> Dict:
             ops.append([k, c.int(-4, 6), c.pick(elems)])
         elif k == "setslice":
             ops.append([k, c.int(0, 4), c.int(0, 5), some(0, 3)])
+        elif k == "from_other":
+            # another instance of the owner's class gets some contents, then its LIVE field is assigned to the owner
+            ops.append([k, some(0, 3)])
         elif k == "retire":
             victim = c.pick(elems)
             if kind == "list" and c.chance(0.6):
@@ -113,6 +116,8 @@ def execute(scenario: Dict) -> Dict:
     model = list(initial) if kind == "list" else set(initial)
     ever = set(initial)
     retired = set()
+    other = [None]  # a second instance of the owner's class (created on demand)
+    other_ever = set()
     nontrivial = False
 
     def check(op_name, n):
@@ -127,7 +132,7 @@ def execute(scenario: Dict) -> Dict:
             if set(got) != model or len(got) != len(set(got)):
                 verdicts.append(kernel.verdict("C16.content", f"after op {n} ({op_name}) the set field holds {sorted(got)}, Python semantics give {sorted(model)}", op=op_name, kind=kind, aspect="content"))
                 return False
-        expected = closure({(owner_serial, prop, e) for e in ever}, pop.cls_of, pop.taker_of)
+        expected = closure({(owner_serial, prop, e) for e in ever} | {(owner_serial + 1, prop, e) for e in other_ever if e not in retired}, pop.cls_of, pop.taker_of)
         # relations of retired (collected) elements are not judged: the graph drops them at its next sweep
         gset = {f for f in pop.graph_facts() if "dead" not in (f[0], f[2]) and f[0] not in retired and f[2] not in retired}
         if gset != expected:
@@ -156,6 +161,24 @@ def execute(scenario: Dict) -> Dict:
                     SymbolGraph().remove_dead_instances()
                     counters.inc("fault.sweep")
                 continue
+            if k == "from_other":
+                vals = [x for x in op[1] if x in pop.objs]
+                counters.inc("fault.write_path.from_other")
+                try:
+                    if other[0] is None:
+                        other[0] = pop.create([tgt["owner_cls"], owner_serial + 1])
+                    setattr(other[0], field, objs(vals) if kind == "list" else set(objs(vals)))
+                    other_ever.update(vals)
+                    setattr(owner, field, getattr(other[0], field))
+                except Exception as e:
+                    verdicts.append(kernel.verdict("C16.exception", f"op {n} (from_other) raised {type(e).__name__}: {e}", op=k, kind=kind))
+                    break
+                model = list(vals) if kind == "list" else set(vals)
+                ever.update(vals)
+                nontrivial = True
+                if not check(k, n):
+                    break
+                continue
             if k == "create_elem":
                 # a new element object appears (possibly at the address of a retired one)
                 if pop.create([tgt["elem_cls"], op[1]]) is not None:
@@ -164,7 +187,7 @@ def execute(scenario: Dict) -> Dict:
             if k == "retire":
                 # an element that is not in the field any more is forgotten by the program and collected
                 e = op[1]
-                if e in pop.objs and e not in model:
+                if e in pop.objs and e not in model and e not in other_ever:
                     del pop.objs[e]
                     pop.cls_of.pop(e, None)
                     ever.discard(e)
